@@ -7,6 +7,26 @@ CHECKS = {
    text="property-based search: generated definitions x sentences/non-sentences judged by a by-construction expectation and an independent reference grammar model; sampling, never exhaustive",
    note="trusted: the reference model in harness/src/model.rs and the Spec interpreter in harness/src/build.rs; vectors outside the property's quantifier are skipped and counted",
    tech="property-based testing (proptest over choice sequences) against a reference grammar model and by-construction sentences"),
+ "C02": dict(
+   text="property-based search: one sentence rendered with two independently generated spelling vectors must give the same outcome and deliver every written value byte-exact; adjacent()-restricted arguments probed with a detached value",
+   note="trusted: the spelling renderer (harness/src/broad.rs) only produces spellings that denote the same sentence; three inherent ambiguities of the notation are excluded by construction and listed in the evidence assumptions",
+   tech="property-based testing, metamorphic relation between two spellings of one generated sentence + by-construction byte-exact values"),
+ "C03": dict(
+   text="property-based search over (definition, sentence, admissible permutation); thorough tier additionally enumerates every admissible permutation of levels with <=5 blocks",
+   note="trusted: block construction (an argument and its value stay one block) and the same-field order constraint computed by the generator",
+   tech="property-based testing, metamorphic relation between a line and a generated permutation of its named blocks (exhaustive permutations for small levels in the thorough tier)"),
+ "C05": dict(
+   text="property-based search: accepted generated sentences with unique tokens are checked for linearity, then a foreign item of four kinds is inserted at every position and the run must fail on stderr",
+   note="trusted: the generator's notion of 'no parser can own this item' (undeclared names; surplus word only when positional slots are bounded and full; second copy only of single-use options)",
+   tech="property-based testing: invariant over the result (token multiset) + exhaustive single-item insertion at every position of each generated line"),
+ "C09": dict(
+   text="property-based search over definitions with positionals of every strictness/arity and lines with `--` at generated positions and dash-looking data right of it; metamorphic, validity and (canonical shapes) reference-model oracles",
+   note="trusted: the reference model for canonical shapes; for other positional orders only the metamorphic and validity clauses are asserted (documentation does not fix more)",
+   tech="property-based testing: metamorphic replacement of everything right of `--`, validity predicate on accepted values, reference model for canonical shapes"),
+ "C10": dict(
+   text="property-based search: help flag inserted as its own item at every position left of `--` of generated valid/invalid/incomplete lines; outcome must be stdout with the help text of the level entered (computed from that level alone); version flag likewise on valid lines",
+   note="trusted: the standalone rendering of a level's help as the reference text; for mutated lines any level on the chain of command names is accepted",
+   tech="property-based testing: exhaustive insertion positions per generated line, differential against the help of the level built alone"),
 }
 
 PENDING_REASON = "check not built yet in this session (designed in DESIGN.md section 4; property-based testing applies to it)"
